@@ -477,6 +477,14 @@ func runConsumers(a *Analyzer, r *Results) {
 			lbl := PP(c.Term(rc.ch))
 			okc, why := false, ""
 			inLoop := a.Loops(f).Innermost(op.in.Block()) != nil
+			if !inLoop {
+				// the select of a loop written as `for x.step(ctx) {}` lives in the step method
+				for _, id := range []string{"(*leanhelix.WorkerLoop).Run", idMainRun} {
+					if lb := a.loopBodyOf(id); lb.call != nil && lb.body == f {
+						inLoop = true
+					}
+				}
+			}
 			switch {
 			case rc.blocking && inLoop && rc.nStates >= 2:
 				okc = true // an event loop's own blocking select
@@ -1213,7 +1221,8 @@ func runRoundBookkeeping(a *Analyzer, r *Results) {
 		r.Undecided = append(r.Undecided, "no SetHeightAndResetView call in the worker (H6.atomic anchor)")
 	}
 	// Z2.sites: a term is disposed only on the way out of the worker or when it is being replaced
-	run := a.P.Func("(*leanhelix.WorkerLoop).Run")
+	wlb := a.loopBodyOf("(*leanhelix.WorkerLoop).Run")
+	run := wlb.body
 	nDisp := 0
 	var judge func(site ssa.Instruction, depth int) (bool, string)
 	judge = func(site ssa.Instruction, depth int) (bool, string) {
@@ -1222,8 +1231,8 @@ func runRoundBookkeeping(a *Analyzer, r *Results) {
 			if isTermStore(in) {
 				return true
 			}
-			if _, isRet := in.(*ssa.Return); isRet && f == run {
-				return true // leaving the event loop
+			if ret, isRet := in.(*ssa.Return); isRet && f == run {
+				return !wlb.stepContinues(ret) // leaving the event loop
 			}
 			return false
 		})
